@@ -162,7 +162,8 @@ FiniteV(v) ==
 \* rounded to rv decimals (C10): the recovered fraction is exact and 10^rv * value is integral
 RECURSIVE RoundedV(_, _)
 RoundedV(v, rv) ==
-  CASE v.t = "q" -> IF v.i = 1 THEN TRUE ELSE v.x = 1 /\ RoundedTo(<<v.n, v.d>>, rv)
+  CASE v.t = "q" -> IF v.i = 1 \/ rv > 5 \/ v.sf # 1 THEN TRUE   \* beyond what 32 bits can judge
+                    ELSE v.x = 1 /\ RoundedTo(<<v.n, v.d>>, rv)
     [] v.t = "d" -> \A j \in 1..Len(v.v) : RoundedV(v.v[j], rv)
     [] OTHER -> TRUE
 
